@@ -72,6 +72,12 @@ func (sw *simWriter) write(p []byte) (n int, err error) {
 			if n < 0 {
 				n = 0
 			}
+		case "stallerr":
+			// a destination that takes its time and then fails: other tasks run while this Write is in flight
+			for i := 0; i < 2+f.N%3; i++ {
+				w.yield(ySiteStall)
+			}
+			n, err = 0, &errInjected{sw.id, attempt}
 		case "stall":
 			k := f.N
 			if k <= 0 {
